@@ -420,6 +420,21 @@ func (entry *localFileEntry) Move(targetState FileState) error {
 		return err
 	}
 
+	// Remove the source's metadata files BEFORE the data file moves. If the process
+	// dies while the source directory is being cleaned up after the rename, metadata
+	// left behind there (e.g. piece statuses saying "all complete") would describe a
+	// file that is gone, and would be adopted by the next file created under this
+	// name in the source state.
+	removeSource := func(md metadata.Metadata) error {
+		if err := os.Remove(entry.getMetadataPath(md)); err != nil && !os.IsNotExist(err) {
+			return err
+		}
+		return nil
+	}
+	if err := entry.RangeMetadata(removeSource); err != nil {
+		return err
+	}
+
 	// Move data. This could be a slow operation if source and target are not on the same FS.
 	if err := os.Rename(sourcePath, targetPath); err != nil {
 		return err
